@@ -1,12 +1,14 @@
 -------------------------- MODULE Trace_Numberify --------------------------
 (* Code -> spec: one ndjson line per call of the real numberify (directly, through run_query(numberify=True) or
-   through the shell setting): the projected input table, the formatter's precisions, and either the projected
-   output or the exception.  Every line is judged by Accepts -- the declarative statement of Numberify -- in one
+   through the shell setting): the projected input table, the formatter (the display context it was built from as
+   <<currency, most common digits, maximum digits>> and the precision setting it was built for; its display
+   precisions follow by FormatterQ), and either the projected output or the exception.  Every line is judged by Accepts -- the declarative statement of Numberify -- in one
    TLC step; a rejected line is reported with the names of the failing clauses and the run continues.
    The mechanism's variables are not used here (the code, not the mechanism, produced the outputs). *)
 EXTENDS Numberify, Json, IOUtils
 
 TraceLog == ndJsonDeserialize(IOEnv.TRACE_FILE)
+NoDC == <<>>
 
 VARIABLES l, nbad
 tvars == <<vars, l, nbad>>
@@ -16,9 +18,10 @@ TInit ==
     /\ gen = 0 /\ tbl = 0 /\ fmt = 0 /\ pc = "trace" /\ ci = 0 /\ ri = 0 /\ cmap = 0 /\ convs = 0 /\ orows = 0 /\ err = 0
 
 Verdict(e) ==
+    LET q == FormatterQ(e.dc, e.prec) IN
     IF e.exc # "" THEN <<"raised">>
-    ELSE IF Accepts(e.cols, e.rows, e.fmt, e.q, e.ocols, e.orows) THEN <<>>
-    ELSE FailedClauses(e.cols, e.rows, e.fmt, e.q, e.ocols, e.orows)
+    ELSE IF Accepts(e.cols, e.rows, e.fmt, q, e.ocols, e.orows) THEN <<>>
+    ELSE FailedClauses(e.cols, e.rows, e.fmt, q, e.ocols, e.orows)
 
 TNext ==
     /\ l <= Len(TraceLog)
